@@ -395,11 +395,11 @@ pub enum TokenType {
     Plus,
     #[token("-")]
     Minus,
-    #[token("MOD")]
+    #[token("MOD", ignore(case))]
     Mod,
     #[token("**")]
     Power,
-    #[token("NOT")]
+    #[token("NOT", ignore(case))]
     Not,
 
     #[token(":=")]
